@@ -101,7 +101,10 @@ def main():
     # 3. known findings: one demonstrator per open finding of this property
     stale = []
     try:
-        demos = mod.demonstrators() if hasattr(mod, "demonstrators") else {}
+        from harness import demos as _demos
+        demos = _demos.registry()
+        if hasattr(mod, "demonstrators"):
+            demos.update(mod.demonstrators())
         for k in core.open_findings(prop):
             fid = k["id"]
             if fid in demos:
